@@ -235,6 +235,15 @@ def skey(s):
           ckey(d["_condition"]), frozenset(d["_locals_with_block_condition"]))
 
 
+def fp(s):
+  """Cheap fingerprint: identical fingerprint => identical key, because everything referenced is an immutable
+  frozen dataclass instance (the level-end integrity pass recomputes the full key as a backstop)."""
+  d = s.__dict__
+  loc = d["_locals"]
+  return (tuple(loc), tuple(map(id, loc.values())), id(d["_condition"]),
+          frozenset(d["_locals_with_block_condition"]), len(d))
+
+
 def clone(s):
   """Harness copy (does not run any code under test)."""
   t = object.__new__(type(s))
@@ -513,7 +522,7 @@ _G = {}
 
 
 class Rec:
-  __slots__ = ("obj", "key", "D", "C", "recipe", "depth", "loc")
+  __slots__ = ("obj", "key", "D", "C", "recipe", "depth", "loc", "fp")
 
 
 def rsize(r):
@@ -633,6 +642,7 @@ class Space:
     self.nontrivial = 0
     self.out = {}
     self.levels = []
+    self.corrupt = False
 
   def count(self, name, n=1):
     self.out[name] = self.out.get(name, 0) + n
@@ -648,18 +658,27 @@ class Space:
     r.obj, r.key, r.recipe, r.depth = obj, k, recipe, depth
     r.D, r.C = got
     r.loc = dict(obj.get_locals())
+    r.fp = fp(obj)
     self.index[k] = len(self.recs)
     self.recs.append(r)
     return r
 
   def do(self, recipe, ins, depth, fresh, kind):
     """Run one transition, check it, register the result if new."""
+    if self.corrupt:   # an operation changed a stored operand: nothing after that is trustworthy
+      return
     obj, got, _, err = step(recipe, [(o, (r.D, r.C)) for o, r in ins])
     self.trans += 1
     self.count(kind)
     if err:
       self.bad(recipe, err)
       return
+    if recipe[0] != "store":
+      for o, r in ins:
+        if fp(o) != r.fp:
+          self.bad(recipe, "%s mutated its operand" % rstr(recipe))
+          self.corrupt = True
+          return
     if any(0 < x < FULL for x in got[0]):
       self.nontrivial += 1
     if self.register(obj, got, recipe, depth) is not None:
@@ -677,6 +696,9 @@ class Space:
     self.do(("merge", a.recipe, b.recipe), [(a.obj, a), (b.obj, b)], depth, fresh, merge_kind(a, b))
 
   def integrity(self):
+    """Backstop for the per-transition operand check; only speaks up if nothing else explained the damage."""
+    if self.viol:
+      return False
     for r in self.recs:
       try:
         same = skey(r.obj) == r.key and den(r.obj) == (r.D, r.C)
@@ -751,10 +773,17 @@ def _frontier_work(chunk):
   out = {}
   viol = []
 
-  def one(recipe, ins, kind):
+  def one(recipe, ins, kind, ops=()):
+    if stats.get("corrupt"):
+      return
     obj, got, _, err = step(recipe, ins)
     stats["trans"] += 1
     out[kind] = out.get(kind, 0) + 1
+    if not err:
+      for r in ops:
+        if fp(r.obj) != r.fp:
+          err = "%s mutated its operand" % rstr(recipe)
+          stats["corrupt"] = 1
     if err:
       if len(viol) < 10:
         viol.append((rsize(recipe), recipe, err))
@@ -769,20 +798,14 @@ def _frontier_work(chunk):
         for v in VALUES:
           one(("store", a.recipe, n, v), [(clone(a.obj), (a.D, a.C))], "store_local")
       for ct in sp.cmenu:
-        one(("cond", a.recipe, ct), [ia], "with_condition")
-      one(("merge", a.recipe, None), [ia], "merge_into(None)")
+        one(("cond", a.recipe, ct), [ia], "with_condition", (a,))
+      one(("merge", a.recipe, None), [ia], "merge_into(None)", (a,))
     for j in range(partners):
       b = recs[j]
       ib = (b.obj, (b.D, b.C))
-      one(("merge", a.recipe, b.recipe), [ia, ib], merge_kind(a, b))
+      one(("merge", a.recipe, b.recipe), [ia, ib], merge_kind(a, b), (a, b))
       if j < lo0:   # (b, a) with b in the frontier range is visited from b's side
-        one(("merge", b.recipe, a.recipe), [ib, ia], merge_kind(b, a))
-    if skey(a.obj) != a.key and len(viol) < 10:
-      viol.append((rsize(a.recipe), a.recipe, "an operation mutated its operand: %s" % rstr(a.recipe)))
-  for j in range(partners):
-    b = recs[j]
-    if skey(b.obj) != b.key and len(viol) < 10:
-      viol.append((rsize(b.recipe), b.recipe, "an operation mutated its operand: %s" % rstr(b.recipe)))
+        one(("merge", b.recipe, a.recipe), [ib, ia], merge_kind(b, a), (a, b))
   return stats, out, viol
 
 
@@ -790,6 +813,12 @@ def bounds(tier):
   if tier == "quick":
     return {"depth": 2, "pairs_once_more": True, "frontier_partners_depth": None}
   return {"depth": 3, "pairs_once_more": False, "frontier_partners_depth": 1}
+
+
+def _dbg(what):
+  if os.environ.get("VERIF_C18_DEBUG"):
+    import time
+    print("  .. c18 %s at %.1f" % (what, time.time()), file=sys.stderr, flush=True)
 
 
 def part2(rep, tier, seed, cmenu):
@@ -807,6 +836,7 @@ def part2(rep, tier, seed, cmenu):
     nold = sp.level(d, nold)
   states = len(sp.recs)
   _G["t_levels"] = round(time.time() - t_start, 1)
+  _dbg("levels done")
   t_start = time.time()
   extra = {"trans": 0, "nontrivial": 0}
   fr = None
@@ -822,13 +852,14 @@ def part2(rep, tier, seed, cmenu):
     chunks = [(lo, min(lo + step_, states), partners, unary, lo0) for lo in range(lo0, states, step_)]
     for _, (st, out, vv) in vrun.pmap(_frontier_work, chunks, seed=seed, chunksize=1):
       for k, n in st.items():
-        extra[k] += n
+        extra[k] = extra.get(k, 0) + n
       for k, n in out.items():
         sp.count(k, n)
       sp.viol.extend(vv)
     fr = {"from_states": states - lo0, "partners": partners, "both_orders": True, "unary_ops": unary,
           "transitions": extra["trans"]}
   _G["t_frontier"] = round(time.time() - t_start, 1)
+  _dbg("frontier done")
   sp.viol.sort(key=lambda x: (x[0], repr(x[1])))
   seenk = set()
   for _, recipe, msg in sp.viol:
@@ -840,13 +871,16 @@ def part2(rep, tier, seed, cmenu):
     if len(seenk) > MAXV:
       break
     rep.violation(k, msg, case)
+  _dbg("violations listed")
   trans = sp.trans + extra["trans"]
   rep.evaluations += trans
   rep.nontrivial_extra += sp.nontrivial + extra["nontrivial"]
   for k, n in sorted(sp.out.items()):
     rep.outcome(k, n)
+  _dbg("outcomes done")
   nonblock = sum(1 for r in sp.recs if set(r.obj.get_locals()) - r.obj._locals_with_block_condition)
   rep.outcome("states-with-explicitly-conditioned-locals", nonblock)
+  _dbg("nonblock done")
   rep.cov.update({
       "states": states, "transitions": trans, "traces_validated_against_impl": trans,
       "states_by_depth": sp.levels,
@@ -855,6 +889,7 @@ def part2(rep, tier, seed, cmenu):
                 "condition_menu": [tstr(t) for t in cmenu],
                 "depth_complete": len(sp.levels) - 1, "frontier": fr},
   })
+  _dbg("cov done")
   if sp.recs:
     deep = [r for r in sp.recs if r.depth == len(sp.levels) - 1 and r.recipe[0] == "merge" and r.recipe[2]]
     for r in deep[:: max(1, len(deep) // 3)][:3]:
@@ -865,9 +900,12 @@ def run(rep, tier, seed):
   mods()
   import time
   t0 = time.time()
+  _dbg("start")
   part1(rep, tier, seed)
+  _dbg("part1 done")
   t1 = time.time()
   part2(rep, tier, seed, CMENU)
+  _dbg("part2 returned")
   rep.cov["phase_wall_s"] = {"part1": round(t1 - t0, 1), "part2": round(time.time() - t1, 1),
                              "part2_levels": _G.pop("t_levels", None), "part2_frontier": _G.pop("t_frontier", None)}
   _G.clear()
